@@ -15,6 +15,7 @@ import LinVerif.Util.Map
 import LinVerif.Model.Tsd
 import LinVerif.Model.DeltaPack
 import LinVerif.Model.FixedOffset
+import LinVerif.Model.Stream
 
 namespace LinVerif.Driver.C14
 open LinVerif LinVerif.Bits LinVerif.Varint
@@ -64,6 +65,10 @@ structure St where
   dd : List (Nat × DeltaPack.Dec) := []
   fe : List (Nat × FixedOffset.Enc) := []
   fd : List (Nat × FixedOffset.Dec) := []
+  sw : List (Nat × Stream.Writer) := []
+  sr : List (Nat × Stream.Reader) := []
+  tsw : List (Nat × Stream.Writer) := []
+  tsr : List (Nat × (Stream.TsdStreamReader × Nat)) := []
 
 def bad (st : St) : St × String := (st, "bad-op")
 
@@ -421,6 +426,150 @@ def stepFd (st : St) (ws : List String) : St × String :=
         | _, _ => bad st
   | _ => bad st
 
+def showSErr : Stream.SErr → String
+  | .none => "nil"
+  | .eof => "eof"
+  | .overflow => "overflow"
+  | .unexpected => "unexpected"
+
+def showSr (r : Stream.Reader) : String := s!"{r.position} {showB r.empty} {showSErr r.err}"
+
+/-- `sw new h | byte h b | bytes h hex | u16|u32|u64 h v | uv h v | sv h i | reset h` → buffer hex -/
+def stepSw (st : St) (ws : List String) : St × String :=
+  match ws with
+  | ["new", h] =>
+    match h.toNat? with
+    | some h => ({ st with sw := Map.upsert st.sw h Stream.Writer.fresh }, hex [])
+    | none => bad st
+  | op :: h :: args =>
+    match h.toNat? with
+    | none => bad st
+    | some h =>
+      match Map.lookup st.sw h with
+      | none => bad st
+      | some w =>
+        let fin (w' : Stream.Writer) : St × String := ({ st with sw := Map.upsert st.sw h w' }, hex w'.buf)
+        match op, args with
+        | "byte", [b] => match b.toNat? with
+          | some b => if b < 256 then fin (w.putByte b) else bad st
+          | none => bad st
+        | "bytes", [d] => match unhex d with
+          | some d => fin (w.putBytes d)
+          | none => bad st
+        | "u16", [v] => match v.toNat? with
+          | some v => if v < 65536 then fin (w.putUint16 v) else bad st
+          | none => bad st
+        | "u32", [v] => match v.toNat? with
+          | some v => if v < two32 then fin (w.putUint32 v) else bad st
+          | none => bad st
+        | "u64", [v] => match v.toNat? with
+          | some v => if v < two64 then fin (w.putUint64 v) else bad st
+          | none => bad st
+        | "uv", [v] => match v.toNat? with
+          | some v => if v < two64 then fin (w.putUvarint v) else bad st
+          | none => bad st
+        | "sv", [v] => match v.toInt? with
+          | some v => if v < -(two63 : Int) ∨ v ≥ (two63 : Int) then bad st else fin (w.putVarint v)
+          | none => bad st
+        | "reset", [] => fin w.reset
+        | _, _ => bad st
+  | _ => bad st
+
+/-- `sr new h hex | byte|u16|u32|u64|uv64|uv32|sv64|sv32|unread|state h | bytes|slice|at|until h n`
+→ `<result> <position> <empty> <err>` -/
+def stepSr (st : St) (ws : List String) : St × String :=
+  match ws with
+  | ["new", h, d] =>
+    match h.toNat?, unhex d with
+    | some h, some d => ({ st with sr := Map.upsert st.sr h (Stream.Reader.fresh d) }, "ok")
+    | _, _ => bad st
+  | op :: h :: args =>
+    match h.toNat? with
+    | none => bad st
+    | some h =>
+      match Map.lookup st.sr h with
+      | none => bad st
+      | some r =>
+        let fin (out : String) (r' : Stream.Reader) : St × String :=
+          ({ st with sr := Map.upsert st.sr h r' }, s!"{out} {showSr r'}")
+        match op, args with
+        | "byte", [] => let (b, r') := r.readByte; fin s!"{b}" r'
+        | "u16", [] => let (v, r') := r.readUintN 2; fin s!"{v}" r'
+        | "u32", [] => let (v, r') := r.readUintN 4; fin s!"{v}" r'
+        | "u64", [] => let (v, r') := r.readUintN 8; fin s!"{v}" r'
+        | "uv64", [] => let (v, r') := r.readUvarint64; fin s!"{v}" r'
+        | "uv32", [] => let (v, r') := r.readUvarint32; fin s!"{v}" r'
+        | "sv64", [] => let (v, r') := r.readVarint64; fin s!"{v}" r'
+        | "sv32", [] => let (v, r') := r.readVarint32; fin s!"{v}" r'
+        | "unread", [] => fin (hex r.unreadSlice) r
+        | "state", [] => fin "-" r
+        | "bytes", [n] => match n.toInt? with
+          | some n => let (bs, r') := r.readBytes n; fin (hex bs) r'
+          | none => bad st
+        | "slice", [n] => match n.toInt? with
+          | some n => let (bs, r') := r.readSlice n; fin (hex bs) r'
+          | none => bad st
+        | "at", [n] => match n.toInt? with
+          | some n => fin "-" (r.readAt n)
+          | none => bad st
+        | "until", [c] => match c.toNat? with
+          | some c => if c < 256 then (let (bs, r') := r.readUntil c; fin (hex bs) r') else bad st
+          | none => bad st
+        | "reset", [d] => match unhex d with
+          | some d => fin "-" (r.reset d)
+          | none => bad st
+        | _, _ => bad st
+  | _ => bad st
+
+/-- `tsw new h s e | field h id hex | bytes h` -/
+def stepTsw (st : St) (ws : List String) : St × String :=
+  match ws with
+  | ["new", h, s, e] =>
+    match h.toNat?, s.toNat?, e.toNat? with
+    | some h, some s, some e =>
+      if s < 65536 ∧ e < 65536 then ({ st with tsw := Map.upsert st.tsw h (Stream.tsdStreamNew s e) }, "ok") else bad st
+    | _, _, _ => bad st
+  | ["field", h, id, d] =>
+    match h.toNat?, id.toNat?, unhex d with
+    | some h, some id, some d =>
+      match Map.lookup st.tsw h with
+      | some w => if id < 65536 then ({ st with tsw := Map.upsert st.tsw h (Stream.tsdStreamWriteField w id d) }, "ok") else bad st
+      | none => bad st
+    | _, _, _ => bad st
+  | ["bytes", h] =>
+    match h.toNat? with
+    | some h => match Map.lookup st.tsw h with
+      | some w => (st, hex w.buf)
+      | none => bad st
+    | none => bad st
+  | _ => bad st
+
+/-- `tsr new h hex k` (the pooled field decoder becomes `td` handle `k`) | `hasnext h` | `next h` | `close h` -/
+def stepTsr (st : St) (ws : List String) : St × String :=
+  match ws with
+  | ["new", h, d, k] =>
+    match h.toNat?, unhex d, k.toNat? with
+    | some h, some d, some k =>
+      let sr := Stream.TsdStreamReader.new d Tsd.Dec.zero
+      ({ st with tsr := Map.upsert st.tsr h (sr, k), td := Map.upsert st.td k sr.field }, s!"{sr.startTime} {sr.endTime}")
+    | _, _, _ => bad st
+  | [op, h] =>
+    match h.toNat? with
+    | none => bad st
+    | some h =>
+      match Map.lookup st.tsr h with
+      | none => bad st
+      | some (sr, k) =>
+        if op = "hasnext" then (st, showB sr.hasNext)
+        else if op = "next" then
+          -- the decoder object is shared with the `td` handle: take its current state first
+          let cur := (Map.lookup st.td k).getD sr.field
+          let (id, _, sr') := ({ sr with field := cur }).next
+          ({ st with tsr := Map.upsert st.tsr h (sr', k), td := Map.upsert st.td k sr'.field }, s!"{id}")
+        else if op = "close" then ({ st with tsr := Map.erase st.tsr h, td := Map.erase st.td k }, "ok")
+        else bad st
+  | _ => bad st
+
 def step (st : St) (ws : List String) : St × String :=
   match ws with
   | "bw" :: rest => stepBw st rest
@@ -433,6 +582,10 @@ def step (st : St) (ws : List String) : St × String :=
   | "dd" :: rest => stepDd st rest
   | "fe" :: rest => stepFe st rest
   | "fd" :: rest => stepFd st rest
+  | "sw" :: rest => stepSw st rest
+  | "sr" :: rest => stepSr st rest
+  | "tsw" :: rest => stepTsw st rest
+  | "tsr" :: rest => stepTsr st rest
   | ["clear"] => ({}, "ok")
   | _ =>
     match stepPure ws with
